@@ -19,8 +19,10 @@ DIMS = [
  ("params", ["none", "one", "many", "posonly", "kwonly", "defaults", "annotated", "varargs", "request"]),
  ("body", ["return", "yield", "yield-in-with", "yield-in-async-with", "yield-in-try", "yield-in-except", "yield-in-else", "yield-in-finally", "yield-in-for", "yield-in-while", "yield-in-if", "yield-in-elif", "x=yield", "yield-from", "yield-in-nested-def", "yield-in-lambda", "try-then-yield", "if-then-yield", "for-then-yield", "while-then-yield", "with-then-yield", "try-finally-then-yield-in-if", "match-then-yield", "yield-in-match", "yield-in-try-star", "yield-in-except-star",
           "yields-in-except-and-else", "yields-in-body-and-except", "yields-in-else-and-finally", "yields-in-if-and-else", "yields-in-for-and-else", "yields-in-while-and-else",
-          "yields-in-except-star-and-else", "yields-in-two-handlers", "yields-in-two-cases", "yield-then-yield", "wrapped-assignment-yield", "wrapped-annotated-assignment-yield", "wrapped-return-yield-from", "subscript-target-then-yield", "wrapped-expression-statement-yield"]),
- ("ret", ["none", "int", "mod.T", "List[int]", "Generator[int, None, None]", "Iterator[int]", "int | None", '"Fwd"', "Dict[str, List[int]]", "Generator[Dict[str, int], None, None]"]),
+          "yields-in-except-star-and-else", "yields-in-two-handlers", "yields-in-two-cases", "yield-then-yield", "wrapped-assignment-yield", "wrapped-annotated-assignment-yield", "wrapped-return-yield-from", "subscript-target-then-yield", "wrapped-expression-statement-yield",
+          "yield-as-call-argument", "yield-in-with-item", "yield-in-if-condition", "yield-as-operand", "yield-in-returned-tuple", "yield-in-list-display", "yield-in-for-iterable", "yield-in-assert", "yield-in-while-condition", "yield-as-await-free-attribute-base", "yield-in-keyword-argument", "yield-in-dict-value", "yield-in-conditional-expression", "yield-in-augmented-assignment"]),
+ ("ret", ["none", "int", "mod.T", "List[int]", "Generator[int, None, None]", "Iterator[int]", "int | None", '"Fwd"', "Dict[str, List[int]]", "Generator[Dict[str, int], None, None]",
+         "tuple[int, ...]", 'Literal["a", 1, True]', "Callable[[int], str]", "Literal[-1]", "Annotated[int, 'meta']", "Generator[tuple[int, ...], None, None]", "Callable[..., int]", "mod.sub.T[int]", "int | str | None", "Iterator[Callable[[int], str]]", 'List["Fwd"]', 'Optional["mod.Fwd"]', "Literal['x', \"y\"]"]),
  ("doc", ["none", "one-line", "multi-indented", "blank-first-last", "raw", "triple-single", "not-first-statement", "non-ascii", "tab-indented", "whitespace-only-line-shorter-than-indent", "whitespace-only-line-longer-than-indent", "second-paragraph-deeper", "trailing-spaces-on-lines"]),
  ("style", ["decorator", "assignment"]),
  ("usage", ["test-fn", "test-method", "usefixtures-fn", "usefixtures-class", "mark-import", "pytestmark-call", "pytestmark-list", "pytestmark-tuple", "pytestmark-annotated", "indirect-true", "indirect-list", "parametrize-no-indirect", "helper-fn", "in-string-and-comment", "async-test", "kwonly-test",
@@ -50,8 +52,12 @@ BODIES = [
  # the yield keyword sits on a later line than the start of its statement
  ["received = (", "    yield 1", ")"], ["received: int = (", "    yield 1", ")"], ["return (", "    yield from [1]", ")"],
  ["state = {}", "state[", "    'sent'", "] = yield 1"], ["(", "    yield 1", ")"],
+ # the yield is a part of a larger expression
+ ["print((yield 1))"], ['with open("x") as fh, (yield 3):', "    pass"], ["if (yield 1):", "    pass"], ["x = (yield 1) + 1"], ["return (yield 1), 2"], ["x = [(yield 1)]"],
+ ["for i in (yield [1]):", "    pass"], ["assert (yield 1)"], ["while (yield 1):", "    break"], ["(yield 1).close()"], ["print(end=(yield 1))"], ["x = {'k': (yield 1)}"], ["x = (yield 1) if SCOPE else 2"], ["x = 0", "x += (yield 1)"],
 ]
-RETS = [None, "int", "mod.T", "List[int]", "Generator[int, None, None]", "Iterator[int]", "int | None", '"Fwd"', "Dict[str, List[int]]", "Generator[Dict[str, int], None, None]"]
+RETS = [None, "int", "mod.T", "List[int]", "Generator[int, None, None]", "Iterator[int]", "int | None", '"Fwd"', "Dict[str, List[int]]", "Generator[Dict[str, int], None, None]",
+        "tuple[int, ...]", 'Literal["a", 1, True]', "Callable[[int], str]", "Literal[-1]", "Annotated[int, 'meta']", "Generator[tuple[int, ...], None, None]", "Callable[..., int]", "mod.sub.T[int]", "int | str | None", "Iterator[Callable[[int], str]]", 'List["Fwd"]', 'Optional["mod.Fwd"]', "Literal['x', \"y\"]"]
 DOCS = [None, ['"""One line."""'], ['"""Summary.', "", "    Indented body", "      more", '    """'], ['"""', "    Starts after blank.", "", '    """'],
         ['r"""Raw \\d doc."""'], ["'''Single quoted.'''"], ["x0 = 1", '"""not a docstring"""'], ['"""Résumé ✓ doc."""'], ['"""Tabbed.', "", "\tbody after tab", '\t"""'],
         ['"""Summary.', "  ", "    Body after a two-space line.", "    More.", '    """'], ['"""Summary.', "        ", "    Body after a long blank line.", '    """'],
